@@ -4,10 +4,9 @@
 -/
 import Kopf.Base.J
 import Kopf.Base.Merge
+import Kopf.Model.C04_Guards
 namespace Kopf.C04
 open Kopf Kopf.J
-
-abbrev Kvs := List (String × J)
 
 /-- `k` is a key of the association list (the form `J.wfKvs` uses). -/
 def hasKey (k : String) (l : Kvs) : Bool := l.any (·.1 == k)
